@@ -283,7 +283,7 @@ def _r2(ctx, pkg):
         # no all(.. in allowed ..) over the reaction's species among the guards.  Understood and wrong: an all / any with another
         # membership test, or no mention of the allowed list at all (the append is unguarded).  A test of the allowed list in another
         # form (subset comparison of sets, a helper that could not be followed) is not understood.
-        gtxt = [x for g, _ in a.guards for x in walk(simp(g)) if isinstance(x, tuple)]
+        gtxt = [x for g, _ in a.guards for x in walk(simp(g)) if isinstance(x, tuple) and len(x) >= 2]
         quantified = any(x[0] == "call" and x[1] in (("global", "all"), ("global", "any")) for x in gtxt)
         mentions = any(x == ALLOWED for x in gtxt) or any(x[0] == "meth" and x[1] == SELF for x in gtxt)
         if mentions and not quantified:
